@@ -255,24 +255,27 @@ def fsck(mirror_repo_dir, cfg_repo, strict_unpublished=False):
     ign = cfg_repo.get("ignore_errors", [])
     for cn, cfg_cn in cfg_repo["codenames"].items():
         ddir = os.path.join(mirror_repo_dir, "dists", cn)
-        rel = None
-        for nm in ("InRelease", "Release"):
-            p = os.path.join(ddir, nm)
-            if os.path.exists(p):
-                rel = p
-                break
-        if rel is None:
+        # "each index that the published Release/InRelease lists": the entries of both published files together, which
+        # is how the tool itself reads them (C11 guarantees that a name listed by both has one size).  A pair whose
+        # listed names are disjoint (upstream switched between the two fetches and changed its compression set) is not
+        # a disagreement in C11's sense; it is satisfied here by any variant either file lists.
+        rels = [os.path.join(ddir, nm) for nm in ("InRelease", "Release") if os.path.exists(os.path.join(ddir, nm))]
+        if not rels:
             if strict_unpublished:
                 problems.append(f"{cn}: no published InRelease/Release")
             continue
-        with open(rel, encoding="utf-8", errors="replace") as fp:
-            fields, entries = parse_release(fp.read())
         groups = {}
-        for algo, h, size, name in entries:
-            if size is None or size <= 0 or name in RELEASE_NAMES:
-                continue
-            base, ext = uncompressed(name)
-            groups.setdefault(base, {})[name] = size
+        for rel in rels:
+            with open(rel, encoding="utf-8", errors="replace") as fp:
+                fields, entries = parse_release(fp.read())
+            for algo, h, size, name in entries:
+                if size is None or size <= 0 or name in RELEASE_NAMES:
+                    continue
+                base, ext = uncompressed(name)
+                prev = groups.setdefault(base, {}).get(name)
+                if prev is not None and prev != size:
+                    problems.append(f"{cn}: published release files list {name} with sizes {prev} and {size}")
+                groups[base][name] = size
         comps = set(cfg_cn)
         for base, variants in sorted(groups.items()):
             e = classify(base, comps)
